@@ -3042,7 +3042,7 @@ func ruleRecordComplete(id string) func(*Checker) {
 						}
 						// a different block reachable from the copy without passing the local's re-initialisation
 						// (the loop head re-zeroes it): only blocks dominated by the copy's block count
-						if after[st.Block()] && ld.Block().Dominates(st.Block()) {
+						if after[st.Block()] && blockDominates(ld.Block(), st.Block()) {
 							late = st.Pos()
 						}
 					})
@@ -3189,7 +3189,7 @@ func ruleGuardOwnField(id string) func(*Checker) {
 						}
 						ok := false
 						for _, e := range own {
-							if e.To().Dominates(b2) {
+							if blockDominates(e.To(), b2) {
 								ok = true
 							}
 						}
